@@ -45,11 +45,11 @@ def walk_typed(typer: Typer, t: Any, env: Dict[str, Type]) -> Iterator[Tuple[Ter
         yield from walk_typed(typer, x, env)
 
 
-def function_sites(prog: Program, fi: FuncInfo) -> Iterator[Tuple[Event, Term, Dict[str, Type]]]:
+def function_sites(prog: Program, fi: FuncInfo, summary: Optional[Summary] = None) -> Iterator[Tuple[Event, Term, Dict[str, Type]]]:
     """(event, sub-term, env) for every distinct sub-term occurrence in the function, reported
     at the first event in which it occurs."""
     typer = typer_of(prog)
-    s = summarise(prog, fi)
+    s = summary if summary is not None else summarise(prog, fi)
     seen: Set[Any] = set()
     for e in s.events:
         env = typer.event_env(fi, e)
